@@ -56,6 +56,21 @@ func SetAgeHeader(resp *http.Response, clock Clock, age *Age) {
 	resp.Header.Set("Age", strconv.Itoa(int(adjusted.Seconds())))
 }
 
+// StripNoCacheFields removes the header fields named by a qualified no-cache
+// response directive; they must not be sent in a response that was not
+// validated (RFC 9111 §5.2.2.4).
+func StripNoCacheFields(h http.Header, ccResp CCResponseDirectives) {
+	raw, present := ccResp.NoCache()
+	if !present {
+		return
+	}
+	if fields, qualified := raw.Value(); qualified {
+		for field := range fields {
+			h.Del(field)
+		}
+	}
+}
+
 // hopByHopHeaders returns a map of hop-by-hop headers that should be removed
 // from the response before caching or forwarding it (RFC 9111 §3.1).
 func hopByHopHeaders(respHeader http.Header) map[string]struct{} {
